@@ -222,6 +222,10 @@ def build(rng, family):
     main.cells.append(M.Cell(99, mat=0, geom=M.S(WORLD_SURF), imp={'n': '0'}))
     main.cells.sort(key=lambda c: (c.u is not None and c.u != 0, c.id))
     main.surfs.sort(key=lambda s: s.id)
+    if rng.random() < 0.25:
+        # the order of the cards inside a block is free in MCNP
+        rng.shuffle(main.surfs)
+        main.tags.add('cards.unordered')
     main.trs.sort(key=lambda t: t.id)
     main.mats.sort(key=lambda m: m.id)
     main.hints = hints
